@@ -15,12 +15,12 @@
      internal/auth/providers/okta.go:196-217,418-436     oktaRequest status mapping, Revoke
    Library code followed (go1.23.5): strconv.ParseInt / fmt.Sprint(int64); encoding/base64
    URLEncoding (padded) EncodeToString / DecodeString (decodeQuantum); net/url URL.String for
-   {Scheme, Host, Path:"/"}.
+   {Scheme, Host, Path:"/"}, QueryEscape / QueryUnescape / Values.Encode / ParseQuery.
 
    Oracles (explicit arguments, never axioms): [mac] (HMAC-SHA256), "url.Parse(uri) succeeds",
    "validRedirectURI(uri, root domains)" (C07 owns the URL parser), the JSON decoding of the
-   IdP's error body (the case carries error_description or NotJSON), url.Values.Encode /
-   Request.ParseForm (a Location is a base plus a sorted parameter list).
+   IdP's error body (the case carries error_description or NotJSON), Request.ParseForm's merge
+   of a POST body with the query. url.Values.Encode / url.ParseQuery are modelled (section 3b).
    Time is Z seconds. No proofs in this file. *)
 From V Require Import Base.
 
